@@ -29,7 +29,7 @@ from ..deviations import active, tla_set
 from ..tlc import MachineryError, SPECS, require_coverage, run_tlc, write_cfg
 
 FONT = os.path.join(SPECS, "font")
-CID_DEVS = ["IdentityOddRaises", "ToUnicodeByCID"]
+CID_DEVS = ["IdentityOddRaises", "ToUnicodeByCID", "VerticalTzScales"]
 FS = 10
 LINE = 200      # distance between the lines of lines_doc (more than any shown string advances vertically)
 
@@ -100,10 +100,10 @@ def type0_font(enc, ordering="Identity", tu=None, w=None, dw=None, w2=None, dw2=
     return f, objs
 
 
-def lines_doc(font, objs, strings, fs=FS):
-    """every string on its own line (own Tm): line i at y = 100000 - LINE*i, x = 100"""
+def lines_doc(font, objs, strings, fs=FS, pre=b""):
+    """every string on its own line (own Tm): line i at y = 100000 - LINE*i, x = 100; pre = text-state operators"""
     from ..realise import fontpdf as fp
-    parts = [b"BT /F1 %d Tf" % fs]
+    parts = [b"BT /F1 %d Tf" % fs] + ([pre] if pre else [])
     for i, s in enumerate(strings):
         parts.append(b"1 0 0 1 100 %d Tm <%s> Tj" % (100000 - LINE * i, bytes(s).hex().encode()))
     parts.append(b"ET")
@@ -356,6 +356,10 @@ def cmap_text(entries):
         elif t == "bfrarr":
             out += (b"1 beginbfrange\n" + code(e["lo"]) + b" " + code(e["hi"]) + b" [" +
                     b" ".join(fp.hexs(a) for a in e["arr"]) + b"]\nendbfrange\n")
+        elif t == "junkchar":
+            out += b"1 beginbfchar\n" + code(e["lo"]) + b"\nendbfchar\n"
+        elif t == "junkrange":
+            out += b"1 beginbfrange\n" + code(e["lo"]) + b" " + code(e["hi"]) + b"\nendbfrange\n"
         elif t in ("endcmap", "begincmap"):
             out += t.encode() + b"\n"
         else:
@@ -410,6 +414,8 @@ def brief_entries(es):
             return "bfrange<%04X><%04X>=%s" % (e["lo"], e["hi"], bytes(e["tgt"]).hex())
         if e["t"] == "bfrarr":
             return "bfrange<%04X><%04X>=[%s]" % (e["lo"], e["hi"], " ".join(bytes(a).hex() for a in e["arr"]))
+        if e["t"] in ("junkchar", "junkrange"):
+            return e["t"] + "<%04X>" % e["lo"]
         return e["t"]
     return "; ".join(one(e) for e in es)
 
@@ -422,7 +428,7 @@ def direction_a_tounicode(ck, futs, ppool):
             model_violation(ck, res, "CMapParse")
             continue
         if res.actions:
-            require_coverage(res, ["ABfChar", "ABfRange", "ABfRangeArray", "AEndCMap", "ABeginCMap"])
+            require_coverage(res, ["ABfChar", "ABfRange", "ABfRangeArray", "AJunk", "AEndCMap", "ABeginCMap"])
         recs = [json.loads(line) for line in open(emit)]
         os.remove(emit)
         if len(recs) != res.emitted or not recs:
@@ -486,7 +492,35 @@ def realify(arr, mode):
     return out
 
 
-def widths_doc(arr, exp, mode, dflt):
+W_FORMS = ["direct", "array", "inner", "numbers", "mixed"]
+
+
+def indirect_w(arr, form, objs, first=300):
+    """the same W / W2 array with indirect objects at a chosen nesting level (they are transparent, ISO 32000-1 7.3.10):
+    'array' the whole array, 'inner' every inner array, 'numbers' every number (inside inner arrays and of the range
+    form), 'mixed' inner arrays and their numbers"""
+    from ..realise.pdfwriter import Ref
+    n = [first]
+
+    def ref(v):
+        objs[n[0]] = v
+        n[0] += 1
+        return Ref(n[0] - 1)
+    if form == "direct":
+        return arr
+    if form == "array":
+        return ref(arr)
+    out = []
+    for v in arr:
+        if isinstance(v, list):
+            inner = [ref(x) for x in v] if form in ("numbers", "mixed") else list(v)
+            out.append(ref(inner) if form in ("inner", "mixed") else inner)
+        else:
+            out.append(ref(v) if form == "numbers" else v)
+    return out
+
+
+def widths_doc(arr, exp, mode, dflt, form="direct"):
     """an Identity-H / Identity-V font with this W / W2 array and DW / DW2 showing CIDs 0..7: advance, pen position, box x0"""
     from ..realise import fontpdf as fp
     f = []
@@ -494,26 +528,28 @@ def widths_doc(arr, exp, mode, dflt):
     data = [b"".join(c.to_bytes(2, "big") for c in cids)]
     try:
         if mode == "W":
-            font, objs = type0_font("Identity-H", w=arr, dw=dflt)
+            font, objs = type0_font("Identity-H", w=[], dw=dflt)
+            objs[100]["W"] = indirect_w(arr, form, objs)
             got = fp.chars_of(lines_doc(font, objs, data))[0]
             x = 100.0
             for c, g in zip(cids, got):
                 adv = exp.get(c, 1000 if dflt is None else dflt) * 0.001 * FS
                 if not (close(g[1], adv) and close(g[2][4], x) and g[2][5] == 100000):
-                    f.append(("widths-document:W", "W %r DW %r: CID %d adv %r at x %r, expected adv %r at x %r"
-                              % (arr, dflt, c, g[1], g[2][4], adv, x), {}))
+                    f.append(("widths-document:W", "W %r (written %s) DW %r: CID %d adv %r at x %r, expected adv %r at x %r"
+                              % (arr, form, dflt, c, g[1], g[2][4], adv, x), {}))
                     break
                 x += adv
         else:
-            font, objs = type0_font("Identity-V", w2=arr, dw2=dflt)
+            font, objs = type0_font("Identity-V", w2=[], dw2=dflt)
+            objs[100]["W2"] = indirect_w(arr, form, objs)
             got = fp.chars_of(lines_doc(font, objs, data))[0]
             y = 100000.0
             for c, g in zip(cids, got):
                 w1 = exp[c][0] if c in exp else (-1000 if dflt is None else dflt[1])
                 adv = w1 * 0.001 * FS
                 if not (close(g[1], adv) and close(g[2][5], y) and g[2][4] == 100):
-                    f.append(("widths-document:W2", "W2 %r DW2 %r: CID %d adv %r at y %r, expected adv %r at y %r"
-                              % (arr, dflt, c, g[1], g[2][5], adv, y), {}))
+                    f.append(("widths-document:W2", "W2 %r (written %s) DW2 %r: CID %d adv %r at y %r, expected adv %r at y %r"
+                              % (arr, form, dflt, c, g[1], g[2][5], adv, y), {}))
                     break
                 # position vector: observed through the glyph box (x0 = origin - vx * fs / 1000)
                 if c in exp and not close(g[3][0], 100 - exp[c][1][0] * 0.001 * FS):
@@ -563,12 +599,13 @@ def widths_worker(batch):
             except Exception as e:  # noqa: BLE001
                 f.append(("widths-total:%s" % type(e).__name__, "get_widths on %r raised %r" % (arr_r, e), {}))
             if with_doc:
+                fa, fb = W_FORMS[with_doc % 5], W_FORMS[(with_doc + 2) % 5]     # indirectness rotates over the documents
                 if r["mode"] == "W":
-                    f += widths_doc(arr, exp, "W", 500 if (len(arr) % 2) else None)
-                    f += widths_doc(arr_r, exp_r, "W", 499.5)
+                    f += widths_doc(arr, exp, "W", 500 if (len(arr) % 2) else None, fa)
+                    f += widths_doc(arr_r, exp_r, "W", 499.5, fb)
                 else:
-                    f += widths_doc(arr, exp, "W2", [800, -900] if (len(arr) % 2) else None)
-                    f += widths_doc(arr_r, exp_r, "W2", [880.5, -999.5])
+                    f += widths_doc(arr, exp, "W2", [800, -900] if (len(arr) % 2) else None, fa)
+                    f += widths_doc(arr_r, exp_r, "W2", [880.5, -999.5], fb)
         out.append((f, drift))
     return out
 
@@ -589,8 +626,8 @@ def direction_a_widths(ck, futs, ppool):
             raise MachineryError("Widths: emitted %d, read %d" % (res.emitted, len(recs)))
         wf = [r for r in recs if r["wf"]]
         step = max(1, len(wf) // (260 if ck.tier == "quick" else 1500))
-        docs = {id(r) for r in wf[::step]}
-        items = [(r, id(r) in docs) for r in recs]
+        docs = {id(r): i + 1 for i, r in enumerate(wf[::step])}          # document number (> 0), also selects the written form
+        items = [(r, docs.get(id(r), 0)) for r in recs]
         chunks = [items[i:i + 150] for i in range(0, len(items), 150)]
         k = 0
         for chunk, results in zip(chunks, ppool.map(widths_worker, chunks)):
@@ -622,13 +659,17 @@ SETUPS = {
     # real-valued metrics: the model writes these setups in halves (den = 2)
     "H-real": dict(enc="Identity-H", w=[1, [250.5], 2, 2, 600.5], dw=499.5),
     "V-real": dict(enc="Identity-V", w2=[1, [-500.5, 300.5, 700.5], 3, 3, -750.5, 500.5, 880.5], dw2=[880.5, -999.5]),
+    # text-state parameters (font size 10: Tc 0.5 = 50, Tw 2 = 200 thousandths of the font size; Tz 200 = scale 2)
+    "H-ts": dict(enc="Identity-H", w=[1, [250], 2, 2, 600], dw=500, pre=b"0.5 Tc 2 Tw 200 Tz 3 Ts"),
+    "V-ts": dict(enc="Identity-V", w2=[1, [-500, 300, 700], 3, 3, -750, 500, 880], pre=b"0.5 Tc 2 Tw 3 Ts"),
+    "V-tz": dict(enc="Identity-V", pre=b"0.5 Tc 2 Tw 200 Tz 3 Ts"),
 }
 
 
 def direction_a_placement(ck, fut):
     from ..realise import fontpdf as fp
     res, emit = fut
-    ck.add_tlc(res, "Placement: 7 metric setups (2 real-valued) x CID strings <= 4")
+    ck.add_tlc(res, "Placement: 10 setups (2 real-valued, 3 with Tc/Tw/Tz/Ts) x strings <= 3 over CIDs {1,2,3,32}")
     if not res.ok:
         return model_violation(ck, res, "Placement")
     require_coverage(res, ["AShow"])
@@ -644,26 +685,36 @@ def direction_a_placement(ck, fut):
     vxdrift = 0
     for sid, recs in sorted(by.items()):
         kw = dict(SETUPS[sid])
+        pre = kw.pop("pre", b"")
         font, objs = type0_font(kw.pop("enc"), **kw)
         strings = [b"".join(c.to_bytes(2, "big") for c in r["cids"]) for r in recs]
         vertical = sid.startswith("V")
-        chars = fp.chars_of(lines_doc(font, objs, strings))[0]
+        chars = fp.chars_of(lines_doc(font, objs, strings, pre=pre))[0]
         fobj = fp.first_font(lines_doc(font, objs, strings[:1]))
         for i, (r, got) in enumerate(zip(recs, lines_of(chars, len(strings), vertical))):
-            ok = len(got) == len(r["g"])
             y0 = 100000 - LINE * i
-            for g, m in zip(got, r["g"]):
-                if not ok:
-                    break
-                den = 2.0 if sid.endswith("-real") else 1.0
-                at = m["at"] / den * 0.001 * FS
-                adv = m["adv"] / den * 0.001 * FS
-                if vertical:
-                    ok = close(g[1], adv) and close(g[2][5], y0 + at) and close(g[2][4], 100)
-                else:
-                    ok = close(g[1], adv) and close(g[2][4], 100 + at) and close(g[2][5], y0)
+            den = 2.0 if sid.endswith("-real") else 1.0
+
+            def fits(model):
+                if len(got) != len(model):
+                    return False
+                for g, m in zip(got, model):
+                    at = m["at"] / den * 0.001 * FS
+                    adv = m["adv"] / den * 0.001 * FS
+                    if vertical and not (close(g[1], adv) and close(g[2][5], y0 + at) and close(g[2][4], 100)):
+                        return False
+                    if not vertical and not (close(g[1], adv) and close(g[2][4], 100 + at) and close(g[2][5], y0)):
+                        return False
+                return True
+            ok = fits(r["g"])
             ck.case(1, ("P", sid, tuple(r["cids"])) if len(r["cids"]) > 1 else None)
-            if not ok:
+            if not ok and r["gc"] != r["g"] and fits(r["gc"]):
+                report(ck, "dev:VerticalTzScales", "vertical font, %s, CIDs %s: glyphs (adv, origin) %s; ISO 32000-1 9.4.4 gives %s "
+                       "(horizontal scaling does not enter the vertical displacement)" % (
+                           pre.decode(), r["cids"], [(g[1], g[2][4:]) for g in got],
+                           [(m["adv"] * 0.001 * FS, y0 + m["at"] * 0.001 * FS) for m in r["g"]]),
+                       {"kind": "placement", "setup": sid, "cids": r["cids"]})
+            elif not ok:
                 report(ck, "placement:%s" % ("vertical" if vertical else "horizontal"),
                              "setup %s showing CIDs %s: glyphs (adv, matrix) %s, model %s" % (
                                  sid, r["cids"], [(g[1], g[2][4:]) for g in got], r["g"]),
@@ -1422,7 +1473,8 @@ def run(ck):
     wl = 6 if quick else 7
     add("w", "MC_Widths.tla", cfg_with(ck, "MC_Widths_W.cfg", "w.cfg", replace={"MaxLen = 6": "MaxLen = %d" % wl}))
     add("w2", "MC_Widths.tla", cfg_with(ck, "MC_Widths_W2.cfg", "w2.cfg", replace={"MaxLen = 6": "MaxLen = %d" % (wl if quick else 6)}))
-    add("place", "MC_Placement.tla", cfg_with(ck, "MC_Placement.cfg", "place.cfg"))
+    add("place", "MC_Placement.tla", cfg_with(ck, "MC_Placement.cfg", "place.cfg",
+                                              replace={"Dev <- NoDev": "Dev <- AllDev" if "VerticalTzScales" in dev else "Dev <- NoDev"}))
     dsel = "<- AllDev" if "ToUnicodeByCID" in dev else "<- NoDev"
     add("sel", "MC_CIDSelect.tla", cfg_with(ck, "MC_CIDSelect.cfg", "sel.cfg", replace={"Dev <- AllDev": "Dev " + dsel}))
     add("use", "MC_UseCMap.tla", cfg_with(ck, "MC_UseCMap.cfg", "use.cfg"))
